@@ -16,6 +16,8 @@ def run(rep, tier, seed):
     mr = 2500 if q else None
     configs = [
         dict(name="hist_real_complex_alternating", module="MC_CTracer", maxinstr=2, maxhist=3, ops="OpsCore", points="PtsMix", seeds="SeedsB", max_replay=mr or 30000),
+        dict(name="overwritten_complex_after_real", module="MC_CTracer", maxinstr=1, maxhist=3, ops="OpsRevP", points="PtsMix", seeds="SeedsB", prefix="overwritten", max_replay=6000),
+        dict(name="overwritten_real", maxinstr=1, maxhist=3, ops="OpsRevP", points="PtsP1small", seeds="SeedsB", prefix="overwritten", max_replay=6000),
         dict(name="hist_two_independents", maxinstr=2, maxhist=3, ops="OpsTwo", points="PtsTwo", seeds="SeedsB", prefix="two", NI=2, max_replay=mr or 30000),
         dict(name="hist3", maxinstr=2 if q else 3, maxhist=3, ops="OpsHist", points="PtsP1small", seeds="SeedsA", max_replay=mr or 30000),
         dict(name="hist_drv", maxinstr=2, maxhist=3, ops="OpsDrvO", points="PtsOne", seeds="SeedsB", max_replay=mr or 30000),
